@@ -18,6 +18,10 @@ def nontrivial(engine, opline):
     if engine == 'block':
         # non-trivial: a transaction line that was admitted (not a begin/end line, not refused at admission)
         return bool(t) and t[0] in ('eth', 'cos')
+    if engine == 'binsearch':
+        return bool(t) and t[0] == 'bs' and ('0' in t[3] and '1' in t[3])
+    if engine == 'query':
+        return bool(t) and t[0] == 'q'
     if engine == 'geth':
         return bool(t) and t[0] == 'msg'
     if engine == 'genesis':
@@ -241,6 +245,18 @@ PROPS['C02'] = dict(
                  'accounts hold only the EVM denomination and are neither module nor vesting accounts (the documented design differences)',
                  'custom precompile addresses are not called by the generated programs (permitted difference: callable and warm)'],
     technique='Lean 4 simulation theorems (context StateDB vs value-semantic reference) + regenerated fork facts + differential execution against go-ethereum itself (core.ApplyMessage over state.StateDB)',
+)
+
+PROPS['C08'] = dict(
+    lean_modules=['Model.Query', 'Model.CDbGeneric', 'Properties.C08', 'Facts.Query'],
+    facts=['*'],
+    theorems=['C08_estimate', 'C08_estimate_range', 'C08_no_commit_no_write', 'binSearch_spec', 'step_orig', 'fact_commit_literals'],
+    engines=[dict(name='binsearch', test='TestEngineBinsearch', quick=3000, thorough=200000, thorough_seeds=2, functional=True),
+             dict(name='query', test='TestEngineQuery', quick=100, thorough=2500, thorough_seeds=2, no_model=True)],
+    rule='E-binsearch: the real evmtypes.BinSearch on arbitrary executable tables (monotone, random, mostly failing, gapped, with consensus errors) vs the Lean binSearch. E-query: on committed states, eth_call / estimateGas / traceTx (with predecessors, commit=true inside the query context) / traceBlock / evm, cpc, feemarket, vauth gRPC queries through BaseApp.Query, then Simulate, CheckTx new and re-check of the same call as a signed transaction (9 call kinds: storage set / clear, logs, a gas-dependent branch, ERC-20 precompile transfer, precompile writes with a reverted frame, self-destruct, creation, revert); every key and value of every KV store plus the working hash is digested before and after each request; the call is then delivered (same gas limit) and once more with the estimate as gas limit; non-trivial = every line; distinct by op-line hash',
+    assumptions=['check-state vs committed-state separation, the query multistore branch and the simulate branch are BaseApp mechanisms (trusted SDK code) — exercised by the store digest around every request',
+                 'prediction (same return data, logs, gas) is asserted for calls that read neither block context nor sender balance; it is tied by delivery, not proved: both paths run ApplyMessageWithConfig (regenerated call-site table)',
+                 'estimate executability is proved for the state the estimate was computed on; the delivery check is restricted to calls whose outcome does not depend on the preceding delivery in the same block'],
 )
 
 NOT_APPLICABLE = {}
